@@ -964,6 +964,10 @@ class reg(exp):
         self.etype = v["etype"]
         self._subrefs = v["_subrefs"]
         self.__protect = v["_reg__protect"]
+        # subclasses without __slots__ (ext, lab) keep attributes in their instance dict:
+        if state[0]:
+            for k, a in state[0].items():
+                setattr(self, k, a)
 
 
 
